@@ -178,6 +178,7 @@ impl Worker {
         }
     }
     fn begin(&mut self, idx: u64) {
+        self.count(if cfg!(debug_assertions) { "cases-run:kiki-built-with-debug-assertions-and-overflow-checks" } else { "cases-run:kiki-built-WITHOUT-debug-assertions-and-overflow-checks" });
         self.current_case = idx;
         self.sub(0);
         let mut o = self.out.lock();
@@ -484,6 +485,20 @@ pub fn dev_worker_exe(root: &Path) -> PathBuf {
     root.join("harness/target-dev/debug/kv")
 }
 
+/// The worker built with the profile "plain" (kiki without debug assertions and overflow checks).
+pub fn plain_worker_exe(root: &Path) -> PathBuf {
+    root.join("harness/target/plain/kv")
+}
+
+/// Every fourth shard runs through the plain-profile worker.
+fn exe_for_shard(default_exe: &Path, plain_exe: &Path, dev: bool, shard: usize) -> PathBuf {
+    if !dev && shard % 4 == 3 && plain_exe.exists() {
+        plain_exe.to_path_buf()
+    } else {
+        default_exe.to_path_buf()
+    }
+}
+
 /// Run a whole check.  Returns the process exit code.
 pub fn check_main(engine: &dyn Engine, o: &CheckOptions) -> i32 {
     let t0 = Instant::now();
@@ -527,8 +542,12 @@ pub fn check_main(engine: &dyn Engine, o: &CheckOptions) -> i32 {
     let mut agg = Agg::default();
     let mut children: Vec<Child> = vec![];
     let dev = engine.use_dev_worker(&o.prop);
+    let plain = plain_worker_exe(&root);
+    if !plain.exists() {
+        agg.inconclusive.push(format!("worker binary {} (kiki without debug assertions) missing", plain.display()));
+    }
     for shard in 0..nshards {
-        match spawn_worker(&exe, o, shard, nshards, &scratch, 0, dev, &tx) {
+        match spawn_worker(&exe_for_shard(&exe, &plain, dev, shard), o, shard, nshards, &scratch, 0, dev, &tx) {
             Ok(c) => children.push(c),
             Err(e) => agg.inconclusive.push(format!("cannot spawn worker: {e}")),
         }
@@ -593,7 +612,7 @@ pub fn check_main(engine: &dyn Engine, o: &CheckOptions) -> i32 {
                         if respawns > 200 {
                             agg.inconclusive.push("too many worker deaths".to_string());
                         } else {
-                            match spawn_worker(&exe, o, shard, nshards, &scratch, at + 1, dev, &tx) {
+                            match spawn_worker(&exe_for_shard(&exe, &plain, dev, shard), o, shard, nshards, &scratch, at + 1, dev, &tx) {
                                 Ok(c) => children.push(c),
                                 Err(e) => agg.inconclusive.push(format!("cannot respawn worker: {e}")),
                             }
